@@ -152,6 +152,10 @@ func DecodeOnlyActions() []*wire.N {
 	return out
 }
 
+// PktTreeByBytes remembers the packet tree behind each packet-in payload taken from the packet
+// corpus (the deviation explorer uses it to find the length-like fields inside the payload).
+var PktTreeByBytes = map[string]*wire.N{}
+
 // Switch enumerates the switch-originated messages (specification-conformant, built from the model).
 func Switch(thorough bool, expired func() bool, level func(name string, complete bool), yield func(n *wire.N)) {
 	done := func(name string) bool {
@@ -210,6 +214,7 @@ func Switch(thorough bool, expired func() bool, level func(name string, complete
 				return
 			}
 			seenPk[string(b)] = true
+			PktTreeByBytes[string(b)] = p
 			yield(PacketIn(1, Match(OxmByName("OXM_OF_IN_PORT", false, 2)), b))
 		})
 	}
